@@ -31,6 +31,7 @@
 #include <string>
 #include <vector>
 #include <sstream>
+#include <fstream>
 #include <iostream>
 #include <algorithm>
 #include <map>
@@ -303,6 +304,53 @@ static void dump_doc(Document& doc, bool with_builtins)
     for (auto& q : doc.get_queries()) printf("query %d formula=\"%s\" comment=\"%s\"\n", qi++, esc(q.formula).c_str(), esc(q.comment).c_str());
 }
 
+// ---- C20: the document as XMLWriter reads it, in the s-expression syntax of drv_writer -------------------
+static std::string penc(const std::string& s)
+{
+    std::string r = "~";
+    for (unsigned char c : s) {
+        if (isalnum(c) || c == '_' || c == '.') r += c;
+        else { char b[8]; snprintf(b, sizeof b, "%%%02X", c); r += b; }
+    }
+    return r;
+}
+static std::string oexpr(const expression_t& e) { return e.empty() ? "-" : penc(e.str()); }
+static void dump_wdoc(Document& doc)
+{
+    for (auto& t : doc.get_templates()) {
+        if (!t.is_TA) continue;
+        std::ostringstream os;
+        os << "(t " << penc(t.uid.get_name()) << ' ' << penc(t.parameters_str()) << ' ' << penc(t.str(false)) << " (locs";
+        for (auto& l : t.locations) {
+            type_t ty = l.uid.get_type();
+            os << " (l " << l.nr << ' ' << penc(l.uid.get_name()) << ' ' << oexpr(l.invariant) << ' ' << oexpr(l.exp_rate) << ' '
+               << (ty.is(COMMITTED) ? 1 : 0) << ' ' << (ty.is(URGENT) ? 1 : 0) << ')';
+        }
+        os << ") (bps";
+        for (auto& b : t.branchpoints) os << ' ' << b.bpNr;
+        os << ") (init ";
+        if (t.init.get_data() == nullptr) os << '-'; else os << static_cast<const location_t*>(t.init.get_data())->nr;
+        os << ") (edges";
+        bool ok = true;
+        for (auto& e : t.edges) {
+            if ((!e.src && !e.srcb) || (!e.dst && !e.dstb)) { ok = false; break; }
+            os << " (e ";
+            if (e.src) os << "(L " << e.src->nr << ')'; else os << "(B " << e.srcb->bpNr << ')';
+            os << ' ';
+            if (e.dst) os << "(L " << e.dst->nr << ')'; else os << "(B " << e.dstb->bpNr << ')';
+            os << ' ' << (e.control ? 1 : 0) << " (sel";
+            for (uint32_t i = 0; i < e.select.get_size(); ++i) {
+                type_t ty = e.select[i].get_type();
+                if (ty.get_kind() == CONSTANT) ty = ty.get(0);
+                os << " (" << penc(e.select[i].get_name()) << ' ' << penc(ty.declaration()) << ')';
+            }
+            os << ") " << oexpr(e.guard) << ' ' << oexpr(e.sync) << ' ' << oexpr(e.assign) << ' ' << oexpr(e.prob) << ')';
+        }
+        os << "))";
+        if (ok) printf("wt %s\n", os.str().c_str()); else printf("wt-dangling %s\n", t.uid.get_name().c_str());
+    }
+}
+
 // ---- C08 structural invariants ----------------------------------------------------------------------
 static int inv_fail = 0;
 #define INV(c, ...) do { if (!(c)) { ++inv_fail; printf("INVFAIL " __VA_ARGS__); printf("\n"); } } while (0)
@@ -533,6 +581,7 @@ static void run_case(const std::string& id, bool newxta, std::vector<Cmd>& cmds)
                 if (c.arg == "doc") dump_doc(*doc, false);
                 else if (c.arg == "errors") { dump_errs("error", doc->get_errors()); dump_errs("warning", doc->get_warnings()); }
                 else if (c.arg == "supported") { auto& s = doc->get_supported_methods(); printf("supported symbolic=%d stochastic=%d concrete=%d\n", s.symbolic, s.stochastic, s.concrete); }
+                else if (c.arg == "wdoc") dump_wdoc(*doc);
                 else if (c.arg == "inv") { inv_fail = 0; check_inv(*doc, returned_normally && !doc->has_errors()); printf("inv fails=%d\n", inv_fail); }
                 else if (c.arg == "clear") { doc->clear_errors(); doc->clear_warnings(); }
             } else if (c.op == "EXPR" || c.op == "RT" || c.op == "LAWS" || c.op == "TEXPR") {
@@ -648,8 +697,14 @@ static void run_case(const std::string& id, bool newxta, std::vector<Cmd>& cmds)
                 int r = parseProperty(c.data.c_str(), &pp);
                 printf("ret %d\nout %s\n", r, esc(os.str()).c_str());
             } else if (c.op == "WRITE") {
-                int r = write_XML_file(c.arg.c_str(), doc.get());
+                std::string path = c.arg + "." + std::to_string((long)getpid()) + ".xml";
+                int r = write_XML_file(path.c_str(), doc.get());
                 printf("ret %d\n", r);
+                std::ifstream in(path, std::ios::binary);
+                std::stringstream ss;
+                ss << in.rdbuf();
+                printf("xml %s\n", esc(ss.str()).c_str());
+                unlink(path.c_str());
             }
         } catch (std::exception& x) {
             returned_normally = false;
